@@ -10,6 +10,7 @@ import (
 	"strconv"
 	"strings"
 	"sync"
+	"sync/atomic"
 	"time"
 
 	"github.com/Shopify/sarama"
@@ -44,6 +45,7 @@ type Scenario struct {
 	CloseAfter int // submit only this many messages, then close while they may be in flight (-1: wait for all outcomes first)
 	DupAsError bool
 	LeaderlessAtStart int32 // partition without a leader at start (-1 none)
+	CloseAtEvent      int   // >= 0: stop submitting and close as soon as this many hook events were recorded
 }
 
 type Msg struct {
@@ -81,6 +83,7 @@ type Result struct {
 	Outcomes   []Outcome
 	Unknown    int // events whose message was not submitted by the harness
 	Events     []Event
+	closeNow   int32 // set by the hook sink when CloseAtEvent is reached
 	CloseHang  bool
 	ClosedOK   bool
 	SendPanic  string
@@ -98,7 +101,7 @@ var fatal = []sarama.KError{sarama.ErrMessageSizeTooLarge, sarama.ErrInvalidRequ
 // Gen derives a scenario from a seed.
 func Gen(seed uint64, focus string) *Scenario {
 	r := hlib.NewRand(seed)
-	sc := &Scenario{Seed: seed, Focus: focus, PanicIcept: -1, CloseAfter: -1, LeaderlessAtStart: -1}
+	sc := &Scenario{Seed: seed, Focus: focus, PanicIcept: -1, CloseAfter: -1, LeaderlessAtStart: -1, CloseAtEvent: -1}
 	sc.Brokers = r.Range(1, 3)
 	sc.Partitions = int32(r.Range(1, 4))
 	sc.RetryMax = r.Pick(0, 1, 1, 2, 2, 3, 5)
@@ -368,6 +371,9 @@ func Run(sc *Scenario) *Result {
 			}
 		}
 		res.Events = append(res.Events, Event{kind, id, a, b, part})
+		if sc.CloseAtEvent >= 0 && len(res.Events) == sc.CloseAtEvent {
+			atomic.StoreInt32(&res.closeNow, 1)
+		}
 	}
 	defer func() { sarama.VerifSink = nil }()
 
@@ -466,6 +472,9 @@ func runAsync(sc *Scenario, cfg *sarama.Config, sim *sarama.VerifSim, msgs []*sa
 		}()
 		for b, n := range sc.Bursts {
 			for k := 0; k < n && i < limit; k++ {
+				if atomic.LoadInt32(&res.closeNow) == 1 {
+					return
+				}
 				select {
 				case p.Input() <- msgs[i]:
 					res.Submitted = append(res.Submitted, sc.Msgs[i].ID)
@@ -475,7 +484,7 @@ func runAsync(sc *Scenario, cfg *sarama.Config, sim *sarama.VerifSim, msgs []*sa
 				}
 				i++
 			}
-			if i >= limit {
+			if i >= limit || atomic.LoadInt32(&res.closeNow) == 1 {
 				break
 			}
 			if sc.PauseMs[b] > 0 {
@@ -483,6 +492,9 @@ func runAsync(sc *Scenario, cfg *sarama.Config, sim *sarama.VerifSim, msgs []*sa
 			}
 		}
 	}()
+	if sc.CloseAtEvent == 0 {
+		atomic.StoreInt32(&res.closeNow, 1)
+	}
 	if sc.CloseAfter < 0 {
 		// wait until every submitted message has an outcome (bounded)
 		deadline := time.Now().Add(8 * time.Second)
@@ -490,10 +502,10 @@ func runAsync(sc *Scenario, cfg *sarama.Config, sim *sarama.VerifSim, msgs []*sa
 			mu.Lock()
 			n := len(res.Outcomes)
 			mu.Unlock()
-			if n >= len(res.Submitted) {
+			if n >= len(res.Submitted) || atomic.LoadInt32(&res.closeNow) == 1 {
 				break
 			}
-			time.Sleep(2 * time.Millisecond)
+			time.Sleep(time.Millisecond)
 		}
 	}
 	p.AsyncClose()
